@@ -17,7 +17,10 @@ DET = {'quick': 2, 'thorough': 12}
 FOLDERS = {'Alpha': 'A', 'Capitalization': 'C', 'Digits': 'D', 'Other': 'O', 'Keyboard': 'K'}
 
 def gen_case(rng):
-    case = trained.gen_train_case(rng, coverages=(0, 0.1, 0.5, 0.6, 0.999, 1, 1.0, 0.3), max_len_choices=(21, 21, 9))
+    # utf-8-sig (what `-e` auto-detection reports for a list saved as "UTF-8 with BOM"): the trainer's side of such a ruleset is judged here; the other tools
+    # cannot load it (recorded assumption), so the encoding appears in C06 only
+    case = trained.gen_train_case(rng, encodings=['utf-8', 'utf-8', 'utf-8', 'latin-1', 'cp1251', 'cp1252', 'ascii', 'iso-8859-7', 'utf-8-sig'],
+                                  coverages=(0, 0.1, 0.5, 0.6, 0.999, 1, 1.0, 0.3), max_len_choices=(21, 21, 9))
     cls = rng.random()
     if cls < 0.15:      # all counts tie
         case['items'] = [[p, 1] for p, _ in case['items']]
